@@ -1,13 +1,22 @@
 (* C03 - The optimizer never changes what a script does.
-   PARTIAL: the window lemmas (every rewrite the optimizer performs is locally
-   sound, for all stacks, environments and operands) are proved; their
-   composition over a whole program, the NOP-removal simulation and dead-code
-   removal are covered by the tie (Go optimized vs Go unoptimized on every
-   case, and Go's optimized byte-code against the model optimizer, byte for
-   byte).  The one rewrite that is NOT sound is exhibited as a theorem. *)
+   The optimizer rewrites raw bytes and never checks that no jump lands inside
+   a window it rewrites, so it is correct only on code where that does not
+   happen.  Model/OptSafe.v is the SAME optimizer with a validator run after
+   every single rewrite step (constant fold, constant jump, NOP removal with
+   re-targeting, dead-code removal); it returns exactly what the unchecked
+   optimizer returns, or nothing.  The theorems below show that whenever the
+   validated optimizer answers, the optimized program - main body and every
+   function body, calls between them included - behaves exactly like the
+   unoptimized one from every machine state, for every object, in both
+   directions: same value or error, same variables, same host-call trace, same
+   stack.  The check runs the extracted validated optimizer on the real
+   unoptimized program of every script it generates and demands an answer
+   equal, byte for byte, to the program Go's optimizer produced.  The one
+   rewrite that is NOT sound (the square-root fold) is refused by the validator
+   and exhibited as a theorem. *)
 From Coq Require Import Floats.
 From EF Require Import Model.Base Gen.Tables Model.Code Model.Value Model.Env Model.Reflect Model.Compiler
-                       Model.Optimizer Model.VM Model.Api Spec.Eval Proofs.OptProofs.
+                       Model.Optimizer Model.OptSafe Model.VM Model.Api Spec.Eval Proofs.OptProofs Proofs.OptSafeProofs.
 Open Scope N_scope.
 
 Section Windows.
@@ -79,3 +88,50 @@ Proof. exact OptProofs.sqrt_fold_refuted. Qed.
 Theorem C03_optimize_flag_visible : forall o e u p e',
   prepare o e true = (PrepOk u p, e') -> env_get (eenv e') optimize_var = Some (VBool true).
 Proof. exact OptProofs.optimize_flag_visible. Qed.
+
+(* ------------------------------------------------------------------ *)
+(* whole programs *)
+
+(* the validated optimizer computes what the optimizer computes *)
+Theorem C03_validated_is_the_optimizer : forall p p',
+  optimize_program_safe p = Some p' -> optimize_program p = Some p'.
+Proof. exact OptSafeProofs.safe_agrees_program. Qed.
+
+(* every behaviour of the unoptimized program is a behaviour of the optimized one ... *)
+Theorem C03_optimized_simulates : forall o fns obj p p',
+  optimize_program_safe p = Some p' ->
+  forall m, polls m = None ->
+  forall fuel out m',
+    run_main o (pconsts p) (pfuncs p) fns obj fuel (pmain p) m = (out, m') ->
+    out <> OErr EFuel ->
+    exists fuel', run_main o (pconsts p') (pfuncs p') fns obj fuel' (pmain p') m = (out, m').
+Proof. exact OptSafeProofs.optimize_program_safe_correct. Qed.
+
+(* ... and conversely *)
+Theorem C03_unoptimized_simulates : forall o fns obj p p',
+  optimize_program_safe p = Some p' ->
+  forall m, polls m = None ->
+  forall fuel out m',
+    run_main o (pconsts p') (pfuncs p') fns obj fuel (pmain p') m = (out, m') ->
+    out <> OErr EFuel ->
+    exists fuel', run_main o (pconsts p) (pfuncs p) fns obj fuel' (pmain p) m = (out, m').
+Proof. exact OptSafeProofs.optimize_program_safe_complete. Qed.
+
+(* non-vacuity: the validator accepts the compiler's output for programs with if/else, while, foreach,
+   switch, conditional expressions inside arithmetic, constant conditions, residues and functions, and
+   the optimizer did rewrite them *)
+Theorem C03_validator_accepts_compiled : forallb OptSafeProofs.CompiledExamples.accepted OptSafeProofs.CompiledExamples.progs = true.
+Proof. exact OptSafeProofs.CompiledExamples.compiled_accepted. Qed.
+
+(* the validator is needed: on code with a jump into a constant window the unchecked optimizer is wrong *)
+Theorem C03_unchecked_optimizer_needs_guarded_joins :
+  optimize_body_safe [OpLookup; 0; 0; OpJumpIfFalse; 0; 12; OpPush; 0; 2; OpJump; 0; 15;
+                      OpPush; 0; 3; OpPush; 0; 1; OpAdd; OpReturn] = None /\
+  optimize_body [OpLookup; 0; 0; OpJumpIfFalse; 0; 12; OpPush; 0; 2; OpJump; 0; 15;
+                 OpPush; 0; 3; OpPush; 0; 1; OpAdd; OpReturn]
+  = Some [OpLookup; 0; 0; OpJumpIfFalse; 0; 12; OpPush; 0; 2; OpJump; 0; 12; OpPush; 0; 4; OpReturn].
+Proof. exact (conj OptSafeProofs.safe_join_refused OptSafeProofs.unsafe_join_folded). Qed.
+
+(* the square-root fold is refused *)
+Theorem C03_sqrt_fold_refused : optimize_body_safe [OpPush; 0; 9; OpSquareRoot; OpReturn] = None.
+Proof. exact OptSafeProofs.safe_sqrt_refused. Qed.
